@@ -32,7 +32,13 @@ func GenC14(seed uint64, i int) *world.Case {
 	nruns := 1 + r.Intn(3)
 	var clients [][]world.Step
 	for k := 0; k < nruns; k++ {
-		sp := gen.Spec(r, gen.SpecOpts{MaxOps: 1 + r.Intn(5), Chunk: cfg.Chunk, Tag: fmt.Sprintf("t%d", k), NoWeak: true, NoObserver: true, Small: true, KeyTypes: []string{"int", "string"}})
+		so := gen.SpecOpts{MaxOps: 1 + r.Intn(5), Chunk: cfg.Chunk, Tag: fmt.Sprintf("t%d", k), NoWeak: true, NoObserver: true, Small: true, KeyTypes: []string{"int", "string"}}
+		if cfg.MachineCombiners {
+			// Machine combiners only matter for reduces: make sure there is one.
+			so.ForceOps = []string{"reduce"}
+			so.Small = false
+		}
+		sp := gen.Spec(r, so)
 		// Sprinkle pragmas generously.
 		for ni := range sp.Nodes {
 			switch sp.Nodes[ni].Op {
@@ -67,8 +73,19 @@ func GenC14(seed uint64, i int) *world.Case {
 					}
 				}
 			}
+			// Every exit path of a task run must return its procs: prefer the
+			// rarer steps (combiner commit, compile) over the plentiful ones.
+			var rare []simnet.Event
+			for _, e := range cands {
+				if e.Method == "Worker.CommitCombiner" || e.Method == "Worker.Compile" {
+					rare = append(rare, e)
+				}
+			}
 			for k := 0; k < 1+r.Intn(2) && len(cands) > 0; k++ {
 				e := cands[r.Intn(len(cands))]
+				if len(rare) > 0 && r.Chance(0.6) {
+					e = rare[r.Intn(len(rare))]
+				}
 				f := &simnet.Fault{At: simnet.Match{Point: e.Point, Method: e.Method, Callee: e.Callee, Key: e.Key, Occ: e.Occ}, Do: r.PickS("kill", "kill", "drop")}
 				c.Faults = append(c.Faults, f)
 			}
